@@ -434,6 +434,17 @@ static Verdict check_c07 (const J &plan)
 			v.findings.push_back (fd) ;
 		}
 		v.probes ["memory_differential"] ++ ;
+		// ... and "in another process": the same calls in a process that has never run library code
+		std::vector<uint64_t> hf, hs ;
+		if (v.findings.empty () && fresh_execute (p, hf))
+		{	Result rp = execute (p) ; v.absorb (rp) ; result_hashes (rp, hs) ;
+			if (hf != hs)
+			{	Finding fd ; fd.sig = make_sig_raw ("C07", "bytes.process", v.fmt, v.route, "none", "fresh_process") ;
+				fd.detail = "the same calls give different results / file bytes in a process that never ran library code than in this process" ;
+				v.findings.push_back (fd) ;
+			}
+			v.probes ["fresh_process_differential"] ++ ;
+		}
 	}
 	v.nontrivial = ns >= 2 && rs [0].stores.count (store) && rs [0].stores.at (store).size () > 64 ;
 	return v ;
@@ -463,6 +474,8 @@ static void gen_script (GenCtx &g, J &ops, const Fmt &f, int ch, int rate, int T
 		c ["edits"] = ed ; ops.push (c) ;
 	}
 	J o2 = mkop ("open") ; o2 ["mode"] = "r" ; o2 ["fmt"] = f.name ; o2 ["ch"] = ch ; o2 ["sr"] = rate ; o2 ["file"] = file ; if (foreign) o2 ["expect"] = "any" ; ops.push (o2) ;
+	// a quarter of the readers change one of their own conversion switches: a setting of one handle must not reach another
+	if (g.rng.chance (0.25)) { J c = mkop ("cmd") ; c ["id"] = g.rng.pick<const char *> ({ "norm_float", "norm_double", "clipping" }) ; c ["arg"] = g.rng.chance (0.8) ? 0 : 1 ; ops.push (c) ; }
 	int nr = (int) g.rng.range (1, std::max (1, maxops / 2)) ;
 	for (int k = 0 ; k < nr ; k++)
 	{	if (g.rng.chance (0.25) && N > 0) { J s = mkop ("seek") ; s ["off"] = (long long) g.rng.below ((uint64_t) N + 1) ; s ["whence"] = 0 ; ops.push (s) ; }
@@ -591,6 +604,16 @@ static Verdict check_c19 (const J &plan)
 		if (!transcripts_equal_t (s1.transcript [0], s2.transcript [0], where) || (s1.stores.count (store) && !stores_equal_x (s1.stores, s2.stores, store, where)))
 		{	Finding fd ; fd.sig = make_sig_raw ("C19", "history", tfmt, "mixed", "none", "-") ; fd.detail = "task " + std::to_string (t) + " alone, run twice in the same process: " + where ; fd.task = (int) t ; v.findings.push_back (fd) ; }
 		v.probes ["solo_repeated_in_process"] ++ ;
+		// ... and must equal the same script in a process that has never run library code (statics in their initial state)
+		std::vector<uint64_t> hf, hs ;
+		if (v.findings.empty () && fresh_execute (solo, hf))
+		{	ExecOpts dflt ; Result s3 = execute (solo, dflt) ; v.absorb (s3) ;
+			result_hashes (s3, hs) ;
+			if (hf != hs)
+			{	Finding fd ; fd.sig = make_sig_raw ("C19", "fresh_process", tfmt, "mixed", "none", hf.size () == hs.size () && !hf.empty () && hf [0] != hs [0] ? "results" : "bytes") ;
+				fd.detail = "task " + std::to_string (t) + " alone in this process (after the runs above) differs from the same script in a process that never ran library code" ; fd.task = (int) t ; v.findings.push_back (fd) ; }
+			v.probes ["solo_vs_fresh_process"] ++ ;
+		}
 	}
 	note_current_plan (J ()) ;
 	v.nontrivial = nt >= 2 && alternations >= 2 ;
